@@ -1,6 +1,8 @@
 package harness
 
 import (
+	"strings"
+
 	"diagonal.works/b6"
 	"diagonal.works/b6/ingest"
 )
@@ -61,8 +63,11 @@ func runC12(rc *RC) {
 		}
 		got["eachtags"] = each
 		for _, q := range obsQueries() {
+			k := "find/" + q.String()
 			if !isTagQuery(q) {
-				delete(got, "find/"+q.String())
+				delete(got, k)
+			} else if i := strings.Index(got[k], "content="); i >= 0 {
+				got[k] = got[k][:i] // the model predicts the id list only
 			}
 		}
 		want := modelObs(g, ids)
